@@ -345,6 +345,13 @@ func checkSystemArgs(c *Ctx, r *Report) {
 			if strings.Contains(x, "Password") || strings.Contains(x, "PassPhrase") {
 				probs = append(probs, "a credential appears in the argument list: "+x)
 			}
+			// OpenSSH options with which a session is carried by another connection or checked against something other
+			// than the configured known-hosts file: no key exchange, host-key check or authentication of its own
+			for _, opt := range []string{"ControlMaster", "ControlPath", "ControlPersist", "ProxyCommand", "ProxyJump", "GlobalKnownHostsFile", "KnownHostsCommand", "VerifyHostKeyDNS", "HostKeyAlias", "UpdateHostKeys", "CheckHostIP", "NoHostAuthenticationForLocalhost"} {
+				if strings.Contains(x, opt) {
+					probs = append(probs, "the default argument list carries the ssh option "+opt+": sessions can then ride on another connection or be verified against something other than the configured known-hosts file, bypassing the strict host-key check and the configured identity")
+				}
+			}
 		}
 		if len(probs) == 0 {
 			r.OK(rule, construct, c.Pos(fn.Pos()), fmt.Sprintf("%d arguments", len(args)))
